@@ -49,14 +49,23 @@ def bucket(results, label, targets):
 
 
 
-def check_maps(ctx, maps, frs, targets, policy, what):
+def check_maps(ctx, maps, frs, targets, policy, what, d=None):
     """Every Map of a MetricsScore against the reference AP of the pooled results of the frame results `frs`.
-    Returns True iff all confidences within every label bucket are distinct."""
+    Returns True iff all confidences within every label bucket are distinct.  With the case descriptor `d` the per-label
+    thresholds are the CONFIGURED ones (mgrlib.configured_rows), otherwise those the Map was constructed with."""
     distinct_conf = True
-    for m in maps:
+    rows = None
+    if d is not None:
+        from vlib import mgrlib as MG
+
+        rows = MG.configured_rows(ctx, d, maps, what)
+    for mi, m in enumerate(maps):
         mode = m.matching_mode.name
         r_aps, r_aphs = [], []
-        for L, ap, aph, thr in zip(targets, m.aps, m.aphs if m.aphs else [None] * len(m.aps), m.matching_threshold_list):
+        thr_row = rows[mi] if rows is not None and rows[mi] is not None else m.matching_threshold_list
+        ctx.require(len(m.aps) == len(targets), f"{what}-ap-count", lambda: f"{what} {mode}: {len(m.aps)} Ap objects for {len(targets)} target labels")
+        for L, ap, aph, thr in zip(targets, m.aps, m.aphs if m.aphs else [None] * len(m.aps), thr_row):
+            ctx.require(getattr(ap, "target_labels", [None])[0].value == L if getattr(ap, "target_labels", None) else True, f"{what}-ap-label-order", lambda: f"{what} {mode}: Ap at the position of label {L} is for {ap.target_labels}")
             pooled = [r for fr in frs for r in bucket(fr.object_results, L, targets)]
             ngt = sum(1 for fr in frs for g in fr.frame_ground_truth.objects if g.semantic_label.label.value == L)
             w, wh, conf = weights(pooled, L, targets, policy, mode, thr, with_heading=bool(m.aphs))
